@@ -337,7 +337,9 @@ pub fn run() -> Report {
         |w, _i, l, acc| {
             let wk = Worker::new(&root, w);
             let world = build_world(btc, &chain.blocks, 0, l);
-            let spec = RunSpec::new("bitcoin", "csvdump").verify(true);
+            // (verbosity rotates with the layout: log statements are code whose arguments run only when their level is on)
+            let mut spec = RunSpec::new("bitcoin", "csvdump").verify(true);
+            spec.verbosity = (_i % 4) as u8;
             let r = match wk.world_run(&world, &spec) {
                 Ok(r) => r,
                 Err(m) => {
